@@ -430,7 +430,7 @@ class Run:
             self.injected = []
             if knobs.get('crash_on_request_p'):
                 from vsim.faults import crash_target_on_request
-                crash_target_on_request(self, knobs['crash_on_request_p'])
+                crash_target_on_request(self, knobs['crash_on_request_p'], **knobs.get('crash_on_request_kw', {}))
             if knobs.get('drop_p'):
                 from vsim.faults import drop_process_publications
                 drop_process_publications(self, self.rng.choice(knobs['drop_p']))
